@@ -251,6 +251,32 @@ def resolve_renames(trees: Dict[str, ast.Module], shas: Optional[Dict[str, str]]
             return []
         profile = {rel: p for rel, p in profile.items() if rel not in same}
     notes: List[str] = []
+    # a module of the profile that is gone while a module the profile does not know defines (most of) what it defined: the same
+    # module under another file name - the view keeps the profile's path (reports carry the real one through _home_file)
+    gone = [rel for rel in full_profile if rel not in trees]
+    if gone:
+        fresh = [rel for rel in trees if rel not in full_profile]
+        for rel in gone:
+            want = {q for q in full_profile[rel]["funcs"] if q.count(".") <= 1} | set(full_profile[rel]["attrs"])
+            if not want:
+                continue
+            best = None
+            for cand in fresh:
+                have = {q for q, _c, _n in iter_funcs(trees[cand]) if q.count(".") <= 1} | {c.name for c in trees[cand].body if isinstance(c, ast.ClassDef)}
+                score = len(want & have) / len(want)
+                if score >= 0.6 and (best is None or score > best[0]):
+                    best = (score, cand)
+            if best:
+                cand = best[1]
+                tree = trees.pop(cand)
+                tree._profile_rel = rel
+                for n in ast.walk(tree):
+                    if isinstance(n, (ast.FunctionDef, ast.AsyncFunctionDef, ast.ClassDef)):
+                        n._home_file = cand
+                trees[rel] = tree
+                fresh.remove(cand)
+                notes.append("module %s is now the file %s" % (rel, cand))
+        profile = {rel: p for rel, p in full_profile.items() if rel not in same}
     for _round in range(3):
         got = _names_round(trees, profile, same)
         notes += got
